@@ -1,6 +1,27 @@
 /* Correspondence harness for src/microhttpd/memorypool.c (engine "pool").
    White-box include so that pos/end are observable; no source change needed. */
 #include "MHD_config.h"
+#include <stddef.h>
+#include <stdint.h>
+#ifdef MHD_ASAN_POISON_ACTIVE
+/* Red-zone build (second variant of the pool).  The pool's poisoning calls go through checked
+   wrappers: a range outside the arena is recorded (and reported as "fault unpoison-out-of-arena"
+   by the operation) instead of letting ASan's own CHECK abort the whole batch. */
+#include <sanitizer/asan_interface.h>
+static uint8_t *h_arena; static size_t h_arena_size; static int h_oob;
+static int h_in_arena (const volatile void *a, size_t n)
+{
+  const uint8_t *p = (const uint8_t *) a;
+  if (NULL == h_arena) return 1;
+  return p >= h_arena && n <= h_arena_size && (size_t) (p - h_arena) <= h_arena_size - n;
+}
+static void h_poison (const volatile void *a, size_t n) { if (h_in_arena (a, n)) __asan_poison_memory_region (a, n); else h_oob = 1; }
+static void h_unpoison (const volatile void *a, size_t n) { if (h_in_arena (a, n)) __asan_unpoison_memory_region (a, n); else h_oob = 1; }
+#undef ASAN_POISON_MEMORY_REGION
+#undef ASAN_UNPOISON_MEMORY_REGION
+#define ASAN_POISON_MEMORY_REGION(a,n) h_poison ((a), (n))
+#define ASAN_UNPOISON_MEMORY_REGION(a,n) h_unpoison ((a), (n))
+#endif
 #include "memorypool.c"
 #include "common/lp.h"
 
@@ -10,7 +31,27 @@ static struct blk live[MAXB];
 static int nlive;
 static struct MemoryPool *pool;
 
+#ifdef MHD_ASAN_POISON_ACTIVE
+/* pos/end + the addressable (not user-poisoned) ranges of the arena, run-length coded */
+static void st (void)
+{
+  size_t i, start = 0; int in = 0, any = 0;
+  printf ("pos=%zu end=%zu adr=", pool->pos, pool->end);
+  for (i = 0; i <= pool->size; i++)
+  {
+    int adr = (i < pool->size) && ! __asan_address_is_poisoned (pool->memory + i);
+    if (adr && ! in) { start = i; in = 1; }
+    else if (! adr && in) { printf ("%s%zu-%zu", any ? "," : "", start, i); any = 1; in = 0; }
+  }
+  if (! any) putchar ('-');
+}
+#define H_OOB_BEGIN() (h_oob = 0)
+#define H_OOB_CHECK() if (h_oob) { puts ("fault unpoison-out-of-arena"); continue; }
+#else
 static void st (void) { printf ("pos=%zu end=%zu", pool->pos, pool->end); }
+#define H_OOB_BEGIN() ((void) 0)
+#define H_OOB_CHECK() ((void) 0)
+#endif
 static void erase (int i) { memmove (&live[i], &live[i+1], (size_t) (nlive - i - 1) * sizeof(live[0])); nlive--; }
 static void push (uint8_t *p, size_t len, int front) { live[nlive].ptr = p; live[nlive].len = len; live[nlive].front = front; nlive++; }
 static void blkline (uint8_t *p, size_t len)
@@ -23,14 +64,26 @@ int main (void)
   while (lp_read (stdin, &l))
   {
     uint64_t a, b, c;
+    H_OOB_BEGIN ();
+    if (l.n >= 2 && !strcmp (l.w[0], "model")) { puts ("ok model"); continue; }   /* which model the driver runs: not the code's business */
     if (l.n == 2 && !strcmp (l.w[0], "create") && lp_u64 (l.w[1], &a) && a > 0 && a < ((uint64_t) 1 << 62))
     {
       if (pool) MHD_pool_destroy (pool);
       nlive = 0;
+#ifdef MHD_ASAN_POISON_ACTIVE
+      h_arena = NULL;
+#endif
       pool = MHD_pool_create ((size_t) a);
       if (!pool) { puts ("bad-op"); continue; }
       /* the model's arena starts zeroed; malloc'ed memory is indeterminate */
+#ifdef MHD_ASAN_POISON_ACTIVE
+      __asan_unpoison_memory_region (pool->memory, pool->size);
       memset (pool->memory, 0, pool->size);
+      __asan_poison_memory_region (pool->memory, pool->size);
+      h_arena = pool->memory; h_arena_size = pool->size;
+#else
+      memset (pool->memory, 0, pool->size);
+#endif
       /* the model is created with the real (rounded) size */
       printf ("ok pos=%zu end=%zu size=%zu\n", pool->pos, pool->end, pool->size);
       continue;
@@ -39,6 +92,7 @@ int main (void)
     if (l.n == 3 && !strcmp (l.w[0], "alloc") && lp_u64 (l.w[1], &a) && lp_u64 (l.w[2], &b))
     {
       uint8_t *r = MHD_pool_allocate (pool, (size_t) a, b != 0);
+      H_OOB_CHECK ();
       if (r) { push (r, (size_t) a, b == 0); blkline (r, (size_t) a); }
       else { printf ("null "); st (); putchar ('\n'); }
     }
@@ -46,6 +100,7 @@ int main (void)
     {
       size_t need = 12345;
       uint8_t *r = MHD_pool_try_alloc (pool, (size_t) a, &need);
+      H_OOB_CHECK ();
       if (r) { push (r, (size_t) a, 0); blkline (r, (size_t) a); }
       else { printf ("null need=%zu ", need); st (); putchar ('\n'); }
     }
@@ -55,12 +110,14 @@ int main (void)
       if (!strcmp (l.w[1], "-"))
       {
         r = MHD_pool_reallocate (pool, NULL, 0, (size_t) b);
+        H_OOB_CHECK ();
         if (r) { push (r, (size_t) b, 1); blkline (r, (size_t) b); }
         else { printf ("null "); st (); putchar ('\n'); }
       }
       else if (lp_u64 (l.w[1], &a) && a < (uint64_t) nlive && live[a].front)
       {
         r = MHD_pool_reallocate (pool, live[a].ptr, live[a].len, (size_t) b);
+        H_OOB_CHECK ();
         if (r) { erase ((int) a); push (r, (size_t) b, 1); blkline (r, (size_t) b); }
         else { printf ("null "); st (); putchar ('\n'); }
       }
@@ -70,6 +127,7 @@ int main (void)
     {
       if (a >= (uint64_t) nlive) { puts ("bad-op"); continue; }
       MHD_pool_deallocate (pool, live[a].ptr, live[a].len);
+      H_OOB_CHECK ();
       erase ((int) a);
       printf ("ok "); st (); putchar ('\n');
     }
@@ -78,15 +136,16 @@ int main (void)
       uint8_t *r;
       if (!strcmp (l.w[1], "-"))
       {
-        if (c > pool->size) { puts ("bad-op"); continue; }
+        if (c > pool->size || ROUND_TO_ALIGN ((size_t) c) + _MHD_RED_ZONE_SIZE > pool->size) { puts ("bad-op"); continue; }
         r = MHD_pool_reset (pool, NULL, 0, (size_t) c);
       }
       else if (lp_u64 (l.w[1], &a) && a < (uint64_t) nlive)
       {
-        if (b > live[a].len || b > c || c > pool->size) { puts ("bad-op"); continue; }
+        if (b > live[a].len || b > c || c > pool->size || ROUND_TO_ALIGN ((size_t) c) + _MHD_RED_ZONE_SIZE > pool->size) { puts ("bad-op"); continue; }
         r = MHD_pool_reset (pool, live[a].ptr, (size_t) b, (size_t) c);
       }
       else { puts ("bad-op"); continue; }
+      H_OOB_CHECK ();
       nlive = 0;
       push (r, (size_t) c, 1);
       blkline (r, (size_t) c);
